@@ -217,18 +217,44 @@ Theorem srcfreq_is_product : is_product srcfreq_shape = true.
 Proof. exact mpshape_srcfreq. Qed.
 Print Assumptions srcfreq_is_product.
 
-(* File names of file_dir mode (pattern extracted from _data_or_file) are
-   injective on (source, frequency) when source keys contain no '_' ... *)
-Theorem fname_injective what s1 f1 s2 f2 :
-  has_us s1 = false -> has_us s2 = false ->
-  fname what s1 f1 = fname what s2 f2 -> s1 = s2 /\ f1 = f2.
-Proof. exact (fname_injective_lemma what s1 f1 s2 f2). Qed.
+(* File names of file_dir mode.  The pattern is extracted from the CURRENT
+   Simulation._data_or_file; [mpshape_fname_fixed] (used by the lemmas below)
+   requires it to be  f"{what}_{isrc}_{ifreq}.h5"  with isrc / ifreq the
+   positions of the keys in the survey.  For ARBITRARY string keys the name is
+   then injective in (what, source, frequency) ... *)
+Theorem fname_injective w1 w2 sources freqs k1 k2 :
+  has_us w1 = false -> has_us w2 = false ->     (* 'efield', 'bfield', 'gfield' *)
+  In (fst k1) sources -> In (fst k2) sources -> In (snd k1) freqs -> In (snd k2) freqs ->
+  fname w1 sources freqs k1 = fname w2 sources freqs k2 -> w1 = w2 /\ k1 = k2.
+Proof. exact (fname_injective_lemma w1 w2 sources freqs k1 k2). Qed.
 Print Assumptions fname_injective.
 
-(* ... and NOT in general: FINDING, replayed on the implementation by
-   known_checks in py/props/c11.py. *)
-Theorem fname_collision_refuted :
+(* ... hence the hypothesis of [file_mode_same] holds for every survey. *)
+Theorem file_names_distinct what sources freqs :
+  has_us what = false -> NoDup sources -> NoDup freqs ->
+  NoDup (map (fname what sources freqs) (srcfreq sources freqs)).
+Proof. exact (fname_distinct_lemma what sources freqs). Qed.
+Print Assumptions file_names_distinct.
+
+Example ex_fname_adversarial_keys :
+  (fname "efield" ["Tx"; "Tx_A"] ["A_f1"; "f1"] ("Tx", "A_f1") = "efield_0_0.h5" /\
+   fname "efield" ["Tx"; "Tx_A"] ["A_f1"; "f1"] ("Tx_A", "f1") = "efield_1_1.h5")%string.
+Proof. split; vm_compute; reflexivity. Qed.
+Print Assumptions ex_fname_adversarial_keys.
+
+(* History: the UNFIXED variant  f"{what}_{source}_{frequency}.h5"  (emg3d before
+   "fix: file_dir hand-over files of different source-frequency pairs could
+   share one name") was injective only for source keys without '_' ... *)
+Theorem fname_unfixed_injective_without_underscore what s1 f1 s2 f2 :
+  has_us s1 = false -> has_us s2 = false ->
+  fname_unfixed what s1 f1 = fname_unfixed what s2 f2 -> s1 = s2 /\ f1 = f2.
+Proof. exact (fname_unfixed_injective_lemma what s1 f1 s2 f2). Qed.
+Print Assumptions fname_unfixed_injective_without_underscore.
+
+(* ... and not in general (the defect, replayed on the implementation by the
+   searcher of py/props/c11.py: it must NOT reproduce any more). *)
+Theorem fname_unfixed_collision_refuted :
   exists s1 f1 s2 f2 : string,
-    (s1, f1) <> (s2, f2) /\ fname "efield" s1 f1 = fname "efield" s2 f2.
-Proof. exact fname_collision_lemma. Qed.
-Print Assumptions fname_collision_refuted.
+    (s1, f1) <> (s2, f2) /\ fname_unfixed "efield" s1 f1 = fname_unfixed "efield" s2 f2.
+Proof. exact fname_unfixed_collision_lemma. Qed.
+Print Assumptions fname_unfixed_collision_refuted.
